@@ -544,3 +544,102 @@ func pathInstrs(d *DPath) []ssa.Instruction {
 	}
 	return out
 }
+
+// fnView: the instructions of a function together with those of the helpers outside the baseline
+// list that it calls at exactly one site (a part of the function a later change moved out), and a
+// term environment in which a helper's parameters stand for the arguments and its call for the
+// values it returns. For rules that look for constructs anywhere in a function (flow-insensitive).
+type fnView struct {
+	Instrs []ssa.Instruction
+	Env    *TermEnv
+	Blocks []*ssa.BasicBlock
+}
+
+func viewOf(fn *ssa.Function) *fnView {
+	v := &fnView{Env: newTermEnv()}
+	v.Env.Sub = map[ssa.Value]ssa.Value{}
+	var add func(f *ssa.Function, depth int)
+	add = func(f *ssa.Function, depth int) {
+		// call sites per callee
+		sites := map[*ssa.Function][]*ssa.Call{}
+		for _, b := range f.Blocks {
+			v.Blocks = append(v.Blocks, b)
+			for _, ins := range b.Instrs {
+				v.Instrs = append(v.Instrs, ins)
+				if call, ok := ins.(*ssa.Call); ok {
+					if sc := call.Call.StaticCallee(); sc != nil {
+						sites[sc] = append(sites[sc], call)
+					}
+				}
+			}
+		}
+		if depth >= 2 || inlineHelper == nil {
+			return
+		}
+		for sc, calls := range sites {
+			if len(calls) != 1 || sc == fn || sc == f || len(sc.Blocks) == 0 || !inlineHelper(sc) {
+				continue
+			}
+			call := calls[0]
+			for i, p := range sc.Params {
+				if i < len(call.Call.Args) {
+					v.Env.Sub[p] = call.Call.Args[i]
+				}
+			}
+			var rets []*ssa.Return
+			for _, b := range sc.Blocks {
+				if r, ok := b.Instrs[len(b.Instrs)-1].(*ssa.Return); ok {
+					rets = append(rets, r)
+				}
+			}
+			if len(rets) == 1 {
+				if len(rets[0].Results) == 1 {
+					v.Env.Sub[call] = rets[0].Results[0]
+				} else if call.Referrers() != nil {
+					for _, r := range *call.Referrers() {
+						if ex, ok := r.(*ssa.Extract); ok && ex.Index < len(rets[0].Results) {
+							v.Env.Sub[ex] = rets[0].Results[ex.Index]
+						}
+					}
+				}
+			}
+			add(sc, depth+1)
+		}
+	}
+	add(fn, 0)
+	return v
+}
+
+// attributedTo: the baseline functions an instruction of fn belongs to for who-may-do rules: fn
+// itself when it is in the baseline list, else (a helper extracted by a later change) the
+// functions its callers are attributed to.
+func attributedTo(p *Prog, fn *ssa.Function) []*ssa.Function {
+	seen := map[*ssa.Function]bool{}
+	var out []*ssa.Function
+	var walk func(f *ssa.Function, depth int)
+	walk = func(f *ssa.Function, depth int) {
+		if f == nil || seen[f] || depth > 4 {
+			return
+		}
+		seen[f] = true
+		if inlineHelper == nil || !inlineHelper(f) {
+			out = append(out, f)
+			return
+		}
+		node := p.CG().Nodes[f]
+		n := 0
+		if node != nil {
+			for _, e := range node.In {
+				if inScope(pkgPathOf(e.Caller.Func)) {
+					n++
+					walk(e.Caller.Func, depth+1)
+				}
+			}
+		}
+		if n == 0 {
+			out = append(out, f)
+		}
+	}
+	walk(fn, 0)
+	return out
+}
